@@ -23,7 +23,10 @@ type BodyCtx struct {
 	Undetermined bool
 	// SelfRefs is true when self.* references are enabled for this body.
 	SelfRefs bool
-	Depth    int
+	// DynamicOn is true when the dynamic-blocks extension is in force here: enabled
+	// by this body or inherited from an enclosing body that enables it.
+	DynamicOn bool
+	Depth     int
 	Block    *hclsyntax.Block // enclosing block (nil for the root body)
 	BlockM   *m.BlockM        // its schema (nil for the root body or unknown blocks)
 	Sel      Selection
@@ -46,9 +49,10 @@ func Effective(bl m.BlockM, block *hclsyntax.Block) (eff *m.BodyM, sel Selection
 
 // WalkBodies calls f for every body of the file with its effective schema.
 func WalkBodies(root *m.BodyM, body *hclsyntax.Body, f func(bc *BodyCtx)) {
-	bc := &BodyCtx{Body: body, Schema: root, Known: root != nil}
+	bc := &BodyCtx{Body: body, Schema: root, Known: root != nil, Sel: Selection{Index: -1, Level1: -1}}
 	if root != nil && root.Ext != nil {
 		bc.SelfRefs = root.Ext.SelfRefs
+		bc.DynamicOn = root.Ext.Dynamic
 	}
 	walkBodies(bc, f)
 }
@@ -64,11 +68,11 @@ func walkBodies(bc *BodyCtx, f func(bc *BodyCtx)) {
 
 // childCtx computes the context of the body of blk, a block written in bc.Body.
 func childCtx(bc *BodyCtx, blk *hclsyntax.Block) *BodyCtx {
-	child := &BodyCtx{Body: blk.Body, Depth: bc.Depth + 1, Block: blk, Parent: bc, Undetermined: bc.Undetermined}
+	child := &BodyCtx{Body: blk.Body, Depth: bc.Depth + 1, Block: blk, Parent: bc, Undetermined: bc.Undetermined, DynamicOn: bc.DynamicOn, Sel: Selection{Index: -1, Level1: -1}}
 	if bc.Schema == nil {
 		return child
 	}
-	if blk.Type == "dynamic" && bc.Schema.Ext != nil && bc.Schema.Ext.Dynamic {
+	if blk.Type == "dynamic" && bc.DynamicOn {
 		// synthetic dynamic block: the statement only says that it exists;
 		// everything below is only partially modelled
 		child.Undetermined = true
@@ -80,12 +84,15 @@ func childCtx(bc *BodyCtx, blk *hclsyntax.Block) *BodyCtx {
 		eff, sel := Effective(bm, blk)
 		child.Schema = eff
 		child.Sel = sel
-		child.Known = bc.Known && bm.Body != nil && (!sel.HasKeys || sel.Resolved)
+		child.Known = bc.Known && (!sel.HasKeys || sel.Resolved)
 		if sel.Undetermined {
 			child.Undetermined = true
 		}
 		if eff != nil && eff.Ext != nil {
 			child.SelfRefs = eff.Ext.SelfRefs
+			if eff.Ext.Dynamic {
+				child.DynamicOn = true
+			}
 		}
 	}
 	return child
@@ -104,9 +111,10 @@ func contains(r hcl.Range, b int) bool { return b >= r.Start.Byte && b < r.End.B
 
 // Locate finds the innermost body containing the byte offset and classifies the position.
 func Locate(root *m.BodyM, body *hclsyntax.Body, off int) Loc {
-	bc := &BodyCtx{Body: body, Schema: root, Known: root != nil}
+	bc := &BodyCtx{Body: body, Schema: root, Known: root != nil, Sel: Selection{Index: -1, Level1: -1}}
 	if root != nil && root.Ext != nil {
 		bc.SelfRefs = root.Ext.SelfRefs
+		bc.DynamicOn = root.Ext.Dynamic
 	}
 	return locateIn(bc, off)
 }
